@@ -467,14 +467,16 @@ def alias_probe(rng, uid, stream):
     pa, pb = rng.choice([('-1', '-2'), ('-2', '-1'), ('0', '2**61-1'), ('1', '2**61'), ('2**61', '1'), ('1', 'True'), ('1.0', '1'), ('True', '1.0')])
     decls = _inner(f'Inner_{u}', 's.in_ + k', ', p', '    k = ( len( str( p ) ) * 7 + int( p ) % 5 ) % 100\n')
     src, expect = _two(u, decls, f'Inner_{u}( {pa} )', f'Inner_{u}( {pb} )'), 'clean'
-  elif stream in ('explicit-name-parametrized', 'explicit-name-different-parameters'):
+  elif stream in ('explicit-name-parametrized', 'explicit-name-different-parameters', 'explicit-name-one-of-two-equal-instances'):
     # explicit_module_name on a NON-top component that has construct parameters: set inside construct() or from outside,
     # one / two instances, same / different parameters, directly under the top or one level deeper
     wa = rng.choice([4, 8, 16])
     if stream == 'explicit-name-different-parameters':
       variant, wb = rng.choice(['inside', 'outside']), rng.choice([w for w in (4, 8, 16) if w != wa])
+    elif stream == 'explicit-name-one-of-two-equal-instances':
+      variant, wb = 'outside-one-of-two', wa
     else:
-      variant, wb = rng.choice(['inside-one', 'inside-two-same', 'outside-one-of-two', 'outside-other-params', 'nested-inside', 'nested-outside']), wa
+      variant, wb = rng.choice(['inside-one', 'inside-two-same', 'outside-other-params', 'nested-inside', 'nested-outside', 'outside-both-same']), wa
       if variant == 'outside-other-params': wb = rng.choice([w for w in (4, 8, 16) if w != wa])
     inside = variant.startswith('inside') or variant in ('nested-inside',)
     ename = f'RF_{wa}x_{u}'
@@ -490,7 +492,8 @@ def alias_probe(rng, uid, stream):
     top = (f'class Top_{u}( Component ):\n  def construct( s ):\n'
            f'    s.i1 = InPort( {wa} ); s.o1 = OutPort( {wa} ); s.a = {ea}; s.a.in_ //= s.i1; s.o1 //= s.a.out\n' +
            ('' if one else f'    s.i2 = InPort( {wb} ); s.o2 = OutPort( {wb} ); s.b = {eb}; s.b.in_ //= s.i2; s.o2 //= s.b.out\n'))
-    outside_targets = {'outside-one-of-two': ['a'], 'outside-other-params': ['a'], 'nested-outside': ['a.rf', 'b.rf'], 'outside': ['a', 'b']}.get(variant, [])
+    outside_targets = {'outside-one-of-two': ['a'], 'outside-other-params': ['a'], 'nested-outside': ['a.rf', 'b.rf'], 'outside': ['a', 'b'],
+                       'outside-both-same': ['a', 'b']}.get(variant, [])
     # (also called for a sub-tree translated as a top of its own: the paths are tried relative to it)
     paths = outside_targets + sorted({t.split('.', 1)[1] for t in outside_targets if '.' in t})
     pre = ('def pre_translate( top, backend ):\n  for path in ' + repr(paths) + ':\n    obj = top\n    try:\n'
@@ -554,7 +557,7 @@ ALIAS_STREAMS = [
   'struct-same-name-different-fields', 'object-repr-param',
   'set-param-different-values', 'bitstruct-subclass', 'nested-collision-under-same-named-parents', 'newline-param',
   'hash-equal-params', 'placeholder-child-explicit-name', 'sibling-internal-structs',
-  'explicit-name-parametrized', 'explicit-name-different-parameters',
+  'explicit-name-parametrized', 'explicit-name-different-parameters', 'explicit-name-one-of-two-equal-instances',
 ]
 
 # ---------------------------------------------------------------------- several enabled sub-trees, ONE pass application
